@@ -149,6 +149,11 @@ def render_param(o, ctx):
 FLAGS = ("as_keyword", "subquery", "with_alias", "with_namespace", "subcriterion", "groupby_alias", "orderby_alias")
 
 
+import re as _re
+
+_ADDR = _re.compile(r" at 0x[0-9a-f]+")
+
+
 def obs(o, flags=False, dialects=None):
     """Observation of one object: renderings under the six dialect contexts, inline and parameterised,
     plus str()/alias/tables_/fields_()/is_aggregate.  flags=True adds every context that deviates from a
@@ -166,7 +171,7 @@ def obs(o, flags=False, dialects=None):
                 c2 = ctx.copy(**{fl: not getattr(ctx, fl)})
                 res.append((name, fl, render(o, c2)))
     try:
-        res.append(("str", str(o)))
+        res.append(("str", _ADDR.sub("", str(o))))  # default object str carries the address
     except Exception as e:
         res.append(("str", "!%s" % type(e).__name__))
     d = odict(o) or {}
